@@ -100,11 +100,33 @@ def run(ck):
             reorgs = [10.0 + 45.0 * k for k in range(n)]
             bathT = rng.choice([300.0, 77.0])
         modes = rng.random() < 0.25 and n <= 3
+        if s in (0, 4):
+            modes, bathT = False, (bathT or 300.0)     # the systems with a history of other calls (below) have a bath whatever the seed
+        if s == 2:
+            n, modes = 2, True            # every run has a system with a vibrational mode and a bath (all four requests)
+            energies, reorgs = energies[:2], reorgs[:2]
+            bathT = bathT or 300.0
         try:
             agg = make(n, energies, bathT, reorgs, modes)
         except Exception as e:
             ck.fail("raises:build", "build raised %r" % (e,), {"energies": energies})
             continue
+        # a history: other results were obtained from the same aggregate before its initial states are asked for
+        used_before = []
+        if bathT is not None and not modes and s % 2 == 0:
+            try:
+                calls_ = [("get_RedfieldRateMatrix", lambda: agg.get_RedfieldRateMatrix()),
+                          ("get_RelaxationTensor(standard_Redfield)", lambda: agg.get_RelaxationTensor(ta, relaxation_theory="standard_Redfield")),
+                          ("get_RelaxationTensor(time_dependent, as_operators)",
+                           lambda: agg.get_RelaxationTensor(ta, relaxation_theory="standard_Redfield", time_dependent=True, as_operators=True)),
+                          ("get_RelaxationTensor(standard_Foerster)", lambda: agg.get_RelaxationTensor(ta, relaxation_theory="standard_Foerster"))]
+                # one call only, or several with each of them last in turn (a later call must not be needed to clean up after an earlier one)
+                k0 = (s // 2) % len(calls_)
+                order_ = [calls_[k0]] if s % 4 == 0 else [c_ for i_, c_ in enumerate(calls_) if i_ != k0] + [calls_[k0]]
+                for nm_, f_ in order_:
+                    f_(); used_before.append(nm_)
+            except Exception as e:
+                ck.extra.setdefault("history_call_errors", []).append(repr(e)[:160])
         H = agg.get_Hamiltonian()
         Hs = numpy.array(H.data)
         ee, SS = numpy.linalg.eigh(Hs)
@@ -117,11 +139,11 @@ def run(ck):
             Teff = T if T is not None else (bathT if bathT is not None else 0.0)
             for cond, limit in (("thermal", "weak_coupling"), ("thermal_excited_state", "weak_coupling"),
                                 ("thermal_excited_state", "strong_coupling"), ("impulsive_excitation", "weak_coupling")):
-                if limit == "strong_coupling" and (bathT is None or modes):
+                if limit == "strong_coupling" and bathT is None:
                     continue
                 for inside in (False, True):
                     inp = {"sites": n, "energies_cm": energies, "bath_T": bathT, "modes": modes, "condition": cond, "limit": limit,
-                           "temperature": T, "inside_eigenbasis_of": inside}
+                           "temperature": T, "inside_eigenbasis_of": inside, "obtained_from_the_aggregate_before": used_before}
                     try:
                         if inside:
                             with eigenbasis_of(H):
@@ -157,10 +179,11 @@ def run(ck):
                     # aggregate's Hamiltonian with the relaxed site energies on its diagonal gives the builder's own state
                     if not inside and cond == "thermal_excited_state" and limit == "strong_coupling":
                         try:
+                            n1_ = int(agg.Nb[1])
                             with energy_units("int"):
-                                lam_ = numpy.array([agg.sbi.get_reorganization_energy(i) for i in range(n)])
+                                lam_ = numpy.array([agg.sbi.get_reorganization_energy(int(agg.elinds[start + i]) - 1) for i in range(n1_)])
                             Hr = Hs.copy()
-                            for i_ in range(n):
+                            for i_ in range(n1_):
                                 Hr[start + i_, start + i_] -= lam_[i_]
                             with energy_units("int"):
                                 hr_obj = Hamiltonian(data=Hr)
@@ -182,17 +205,20 @@ def run(ck):
                         # defined in the site basis with relaxed site energies; meaningful when requested outside a context
                         if not inside:
                             pops = numpy.real(numpy.diag(d_site))[start:]
+                            # one state per site without modes; with modes every vibronic state of the band carries the
+                            # reorganisation energy of the site it belongs to
+                            n1 = int(agg.Nb[1])
                             with energy_units("int"):
-                                lam = numpy.array([agg.sbi.get_reorganization_energy(i) for i in range(n)])
-                            ens = numpy.real(numpy.diag(Hs))[start:start + n] - lam
+                                lam = numpy.array([agg.sbi.get_reorganization_energy(int(agg.elinds[start + i]) - 1) for i in range(n1)])
+                            ens = numpy.real(numpy.diag(Hs))[start:start + n1] - lam
                             if Teff == 0.0:
                                 if abs(pops[int(numpy.argmin(ens))] - 1.0) > 1e-12:
                                     ck.fail("zeroT:%s" % what, "at T = 0 the population is not on the lowest relaxed site", inp, pops.tolist())
                             else:
-                                ratios(pops[:n], ens, Teff, what, inp)
+                                ratios(pops[:n1], ens, Teff, what, inp)
                             lines.append("plan %s %s %d %d %s %s" % (frac(Teff), frac(kB_intK * Teff), start, Ntot,
                                                                      " ".join(frac(x) for x in numpy.real(numpy.diag(Hs))),
-                                                                     " ".join(frac(x) for x in list(lam) + [0.0] * (Ntot - start - n))))
+                                                                     " ".join(frac(x) for x in list(lam) + [0.0] * (Ntot - start - n1))))
                             impl.append(numpy.real(numpy.diag(d_site)))
                     elif cond in ("thermal", "thermal_excited_state"):
                         # defined by the populations of the Hamiltonian's eigenstates (weak coupling) /
@@ -254,6 +280,25 @@ def run(ck):
                                                              " ".join(frac(0.0) for _ in ens_b)))
                     impl.append(numpy.real(numpy.diag(d_eb)))
             check_state(d_ex, "opensystem-excited", inp, unit_trace=False)
+            # excitation by a pulse with a given spectrum: D rho D with the dipole operator weighted by the pulse spectrum
+            try:
+                from quantarhei import FrequencyAxis, DFunction
+                with energy_units("1/cm"):
+                    wax = FrequencyAxis(11000.0, 300, 10.0)
+                    spec = DFunction(wax, numpy.exp(-((numpy.array(wax.data) - 12100.0) / 250.0) ** 2))
+                rp = aggb.get_excited_density_matrix(condition=("pulse_spectrum", spec))
+                d_ps = numpy.array(rp.data).copy()
+                with eigenbasis_of(Hb):
+                    d_ps_e = numpy.array(rp.data).copy()
+                if check_state(d_ps, "opensystem-excited-pulse", inp, unit_trace=False):
+                    # same physical state in both presentations: spectrum (eigenvalues) is basis independent
+                    e1 = numpy.sort(numpy.linalg.eigvalsh((d_ps + d_ps.conj().T) / 2)); e2 = numpy.sort(numpy.linalg.eigvalsh((d_ps_e + d_ps_e.conj().T) / 2))
+                    if numpy.abs(e1 - e2).max() > 1e-9 * max(1e-300, numpy.abs(e1).max()):
+                        ck.fail("basis:opensystem-excited-pulse", "pulse-excited state is not the same physical state inside and outside the eigenbasis", inp)
+                    if float(numpy.real(numpy.trace(d_ps))) <= 0.0:
+                        ck.fail("trace:opensystem-excited-pulse", "pulse resonant with the transitions excites nothing", inp, float(numpy.real(numpy.trace(d_ps))))
+            except Exception as e:
+                ck.fail("raises:opensystem-excited-pulse", "get_excited_density_matrix(('pulse_spectrum', spectrum)) raised %r" % (e,), inp)
     model = ck.drive(DRIVER, lines)
     if model is not None:
         for l, diag, b in zip(lines, impl, model):
